@@ -1,5 +1,6 @@
 import Confuse.Model.Api
 import Confuse.Model.Ledger
+import Confuse.Model.Fault
 /-!
 # Line-protocol driver for the model (see DESIGN.md appendix A)
 
@@ -103,6 +104,7 @@ structure World where
   failAt : Option Nat := none
   maxInc : Nat := 10
   cwd : Bytes := []
+  fault : Option Nat := none      -- FAULT k: the k-th allocation of the next modelled store operation fails
 deriving Inhabited
 
 /-- type of the first declaration with this name anywhere in the schema -/
@@ -272,6 +274,7 @@ def step (w : World) (ws : List String) : World × List String :=
      | some home => ({ w with passwd := (optOfHex u, home) :: w.passwd }, [])
      | none => (w, []))
   | ["FAILAT", k] => ({ w with failAt := if k == "-" then none else some k.toNat! }, [])
+  | ["FAULT", k] => ({ w with fault := if k.startsWith "-" then none else some k.toNat! }, [])
   | ["ERRNO", _] => (w, [])       -- the model has no errno: the outcome does not depend on it
   | ["CWD", d] => ({ w with cwd := bytesOfHex d }, [])
   | ["MAXINC", n] => ({ w with maxInc := n.toNat! }, [])
@@ -298,8 +301,21 @@ def step (w : World) (ws : List String) : World × List String :=
       emitApi w ci x (apiList x.cfg (bytesOfHex p) (vs.map (valOfWords ty)) true)
   | "SM" :: c :: p :: vs => withCtx c fun ci x =>
       emitApi w ci x (apiSetmulti orc w.k x.cfg (bytesOfHex p) (vs.map optOfHex))
-  | ["SO", c, p, v] => withCtx c fun ci x => emitApi w ci x (apiSetopt orc w.k x.cfg (bytesOfHex p) (optOfHex v))
-  | ["SC", c, p, v] => withCtx c fun ci x => emitApi w ci x (apiSetcomment x.cfg (bytesOfHex p) (optOfHex v))
+  | ["SO", c, p, v] => withCtx c fun ci x =>
+      match w.fault, (getoptPath x.cfg (bytesOfHex p)).ref, (getoptPath x.cfg (bytesOfHex p)).ref.bind x.cfg.getOpt with
+      | some _, some r, some o =>
+        (match setoptConvert orc w.k o (optOfHex v) with
+         | .ok (cv, _) =>
+           let out := setoptPlainF o cv w.fault
+           (setCtx { w with fault := none } ci (some { x with cfg := x.cfg.setOpt r out.opt }), [if out.ok then "R 0" else "R -1"])
+         | .error _ => emitApi { w with fault := none } ci x (apiSetopt orc w.k x.cfg (bytesOfHex p) (optOfHex v)))
+      | _, _, _ => emitApi w ci x (apiSetopt orc w.k x.cfg (bytesOfHex p) (optOfHex v))
+  | ["SC", c, p, v] => withCtx c fun ci x =>
+      match w.fault, (getoptPath x.cfg (bytesOfHex p)).ref, (getoptPath x.cfg (bytesOfHex p)).ref.bind x.cfg.getOpt, optOfHex v with
+      | some _, some r, some o, some cm =>
+        let out := setcommentF o cm w.fault
+        (setCtx { w with fault := none } ci (some { x with cfg := x.cfg.setOpt r out.opt }), [if out.ok then "R 0" else "R -1"])
+      | _, _, _, _ => emitApi w ci x (apiSetcomment x.cfg (bytesOfHex p) (optOfHex v))
   | ["AT", c, p, t] => withCtx c fun ci x => emitApi w ci x (apiAddtsec orc w.k x.cfg (bytesOfHex p) (bytesOfHex t))
   | ["RN", c, p, i] => withCtx c fun ci x => emitApi w ci x (apiRmnsec x.cfg (bytesOfHex p) i.toNat!)
   | ["RT", c, p, t] => withCtx c fun ci x => emitApi w ci x (apiRmtsec x.cfg (bytesOfHex p) (bytesOfHex t))
@@ -353,7 +369,21 @@ def step (w : World) (ws : List String) : World × List String :=
   | ["SQ", c, f] => withCtx c fun _ x =>
       (w, ["S " ++ (if x.dirs.isEmpty then "-" else hexOpt (searchpath (mkPEnv w x.dirs) x.dirs (bytesOfHex f)))])
   | [op, c, p, idx, v] =>
-    if ["SI", "SF", "SB", "SS", "OI", "OF", "OB", "OS"].contains op then
+    if ["SI", "SF", "SB", "SS", "OI", "OF", "OB", "OS"].contains op && w.fault.isSome then
+      -- store operation under an injected allocation failure (Model/Fault.lean); simple names only
+      withCtx c fun ci x =>
+        let ty : Ty := if op == "SI" || op == "OI" then .int else if op == "SF" || op == "OF" then .float
+                       else if op == "SB" || op == "OB" then .bool else .str
+        let pth := getoptPath x.cfg (bytesOfHex p)
+        match pth.ref, pth.ref.bind x.cfg.getOpt with
+        | some r, some o =>
+          let out : FOut :=
+            if o.ty != ty then ⟨o, false, 0⟩
+            else if ty == .str then setnStrF o (optOfHex v) idx.toNat! w.fault
+            else setnNumF o (valOfWords ty v) idx.toNat! w.fault
+          (setCtx { w with fault := none } ci (some { x with cfg := x.cfg.setOpt r out.opt }), [if out.ok then "R 0" else "R -1"])
+        | _, _ => ({ w with fault := none }, ["R -1"])
+    else if ["SI", "SF", "SB", "SS", "OI", "OF", "OB", "OS"].contains op then
       withCtx c fun ci x =>
         let ty : Ty := if op == "SI" || op == "OI" then .int else if op == "SF" || op == "OF" then .float
                        else if op == "SB" || op == "OB" then .bool else .str
